@@ -561,7 +561,7 @@ def dbcounter_clause(ctx, r, c):
 
     def visit(m):
         nonlocal seen
-        if isinstance(m, af.Collection) and seen < 4:
+        if isinstance(m, af.Collection) and seen < 2:
             seen += 1
             names = [k for k, _ in _dict_items(m)]
             ans = ctx.lean.ask({"p": "C08", "q": "dbcounter", "names": names})
@@ -607,12 +607,12 @@ def one_case(ctx, prog, label="gen"):
     has_asserts = any(s["op"] == "assert" for s in prog)
     nontrivial = n_ids >= 2 and (feats["places"] > n_ids or bool(feats["kinds"] & {"tuple", "arith", "modif", "array"}) or has_asserts)
     case = {"program": prog, "label": label}
-    if model.prior_count > 0 and not holds_model_instance(model) and (ctx.tier == "quick" or label != "gen" or rng.random() < 0.6):
+    if model.prior_count > 0 and not holds_model_instance(model) and (ctx.tier == "quick" or label != "gen" or rng.random() < 0.45):
         dictform_clauses(ctx, model, case)
     for route, (fn, keeps_order) in ROUTES.items():
         if route.startswith("dict") and model.prior_count == 0:
             continue  # a model without free parameters is written as a plain instance
-        if route == "database-then-dict" and (model.prior_count == 0 or (ctx.tier == "quick" and label == "gen" and rng.random() < 0.5)):
+        if route == "database-then-dict" and (model.prior_count == 0 or (label == "gen" and rng.random() < (0.5 if ctx.tier == "quick" else 0.7))):
             continue
         if ctx.tier == "quick" and route in ("dict-x3", "database-x2", "dill") and rng.random() < 0.6:
             continue
